@@ -693,6 +693,40 @@ def run(chk):
         return True, "", [cs[0].loc, "event chain: %s" % " <- ".join(n for n in names if n)]
     chk.ob("C01.S2.macro:emit_event-keeps-extent", "emit!(evt: ..) passes the caller's event on with its own extent", emit_event_keeps_extent)
 
+    def call_site_props_first():
+        """`emit!(evt: e, k: v)` and `evt!(props: base, k: v)`: a chained list answers a lookup with its first match, so the property written at
+        the call site (including the macro's own `lvl`) has to be the *receiver* of and_props and the carried-in list its argument.  Decided by
+        position in the hook's signature: the receiver roots in the hook's last parameter (`props`), the argument in the event / base list."""
+        out = []
+        # __private_emit_event: inside the map_props closure, captured `props` . and_props(closure parameter)
+        b = P.body("emit::macro_hooks::__private_emit_event")
+        aps = [(x, c) for x in [b] + P.closures_of(b) for c in x.calls(normal_only=True) if c.callee.get("name") == "and_props"]
+        if len(aps) != 1:
+            return False, "__private_emit_event must join the call site's props and the event's props with exactly one and_props, found %d" % len(aps), [], b.span
+        x, c = aps[0]
+        recv = common.root_param(P, x, x.origin(c.args[0], through_calls=("deref", "borrow", "by_ref")))
+        arg = x.origin(c.args[1])
+        if recv != 5:
+            return False, ("__private_emit_event joins the props as %s.and_props(..): the call site's props (hook parameter 5) must be the receiver so "
+                           "that they win over the carried-in event's on a duplicate key" % o_str(x.origin(c.args[0]))), [], c.loc
+        if not (x.is_closure and arg[0] == "param"):
+            return False, "the argument of and_props is %s, not the carried-in event's props (the map_props closure's parameter)" % o_str(arg), [], c.loc
+        out.append(c.loc)
+        # __private_evt: props.and_props(base_props)
+        b = P.body("emit::macro_hooks::__private_evt")
+        aps = [c for c in b.calls(normal_only=True) if c.callee.get("name") == "and_props"]
+        if len(aps) != 1:
+            return False, "__private_evt must join props and base props with exactly one and_props, found %d" % len(aps), [], b.span
+        c = aps[0]
+        recv = common.root_param(P, b, b.origin(c.args[0]))
+        arg = common.root_param(P, b, b.origin(c.args[1]))
+        if (recv, arg) != (5, 4):
+            return False, ("__private_evt joins the props as (parameter %s).and_props(parameter %s): the call site's props (5) must come before "
+                           "the base props (4)" % (recv, arg)), [], c.loc
+        out.append(c.loc)
+        return True, "", out
+    chk.ob("C01.S2.macro:call-site-props-first", "props written at the call site precede (win over) the carried-in event's / base props", call_site_props_first)
+
     # unclassified impls: generic discipline only (no alarm for shape)
     def when_absent_is_none():
         """The tokens interpolated at a hook's `when` position come from an `Option<TokenStream>` turned into tokens by
